@@ -58,6 +58,21 @@ func runC42(run *mon.Run, thorough bool) {
 				orders = append(orders, randPerm(rnd, n))
 			}
 		}
+		// insertion histories in which sharders are added again (once, twice, three times in a row) with fresh node objects: a
+		// refreshed registration or a node decoded again replaces the object in the pool
+		if n >= 2 {
+			for k := 0; k < 3; k++ {
+				o := randPerm(rnd, n)
+				for d := 1 + rnd.Intn(3); d > 0; d-- {
+					again := o[rnd.Intn(n)]
+					for rep := 1 + rnd.Intn(3); rep > 0; rep-- {
+						o = append(o, again)
+					}
+				}
+				orders = append(orders, o)
+				run.Count("insertion_histories_with_readded_members", 1)
+			}
+		}
 		for _, construction := range []string{"newnode", "json"} {
 			// one magic block per insertion order, each in force for its own round
 			type mbr struct {
